@@ -25,12 +25,18 @@ from checks.c20_families import Req
 
 PROPERTY = "C20"
 LEVEL = "exploration"
-RULE = ("per (helper class, speed grade/device) configuration: the Cartesian product input-frequency grid x output-"
-        "frequency grid^n (n = 1..3 and n = max outputs; quick uses sub-grids for n >= 2) x margin set x phase pattern, "
-        "every request run through the real register_clkin/create_clkout/do_finalize; evaluations = requests run; a "
-        "request is distinct by (class, variant, fin, ((f, phase, margin)...), flags) and non-trivial when it returned "
-        "a configuration (then fully re-verified) or was refused by compute_config after its search (then decided by "
-        "the reference search); requests turned away by a range assert before any search are not counted")
+RULE = ("one configuration per (helper class, speed grade / device / variant); inside it the plain Cartesian product of: "
+        "input-frequency grid (typical clocks inside the declared range, both range ends, two points 0.1 % outside) x "
+        "output-frequency grid^n (n = 1, 2, 3 and max outputs in quick, n = 1..max in thorough; the grid for n = 1 has the "
+        "range ends, extreme achievable outputs, awkward and round values, smaller sub-grids for n >= 2) x margin tuples "
+        "over {0, 1e-4, 1e-2} (all pairs for n = 2 in thorough, uniform and mixed tuples otherwise) x phase pattern "
+        "{0, 90}; input frequencies above a per-family cut get single-output requests only (a refused request costs the "
+        "helper a full scan).  Every request goes through the real register_clkin / create_clkout / do_finalize -> "
+        "compute_config.  evaluations = requests run.  A request is distinct by (class, variant, fin, ((f, phase, "
+        "margin)...), flags) (duplicates are dropped before running) and non-trivial when it returned a configuration "
+        "(then fully re-verified: recomputed frequencies, ranges, emitted instance) or was refused by compute_config "
+        "after its search (then decided by the independent reference search); requests turned away by a range assert "
+        "before any search, or crashing, are run and judged but not counted as distinct")
 ASSUMPTIONS = [
     "frequencies are real numbers: only the listed grid is decided (DESIGN C20 'Limit'); grids include both ends of each declared input/output range, points 0.1 % outside them, the extreme achievable outputs vco_max/min_div and vco_min/max_div, vco_max/2, and awkward ratios (24.576 MHz, 74.25 MHz, 33.333 MHz)",
     "declared ranges are read from each instance's attributes after construction (divclk_divide_range, clkfbout_mult_frange, clkout_divide_range, clkoutN_divide_range, vco_freq_range, vco_margin, n/m/c_div_range, clkin_pfd_freq_range, clki/clkfb/clko_div_range, pfd_freq_range, divr/divf/divq_range, vco_in/vco_out_freq_range); Python range()/clkdiv_range() semantics (half-open)",
@@ -43,7 +49,8 @@ ASSUMPTIONS = [
     "NXPLL's analog loop-filter fit (calculate_analog_parameters, 0.3 s per call, not part of the property) is stubbed on the instance except for one request per input frequency",
     "ECP5PLL variant 'dpa': expose_dpa() and uses_dpa=True on every output but the first (as test_clock does); Xilinx/Intel variant 'vco_margin=x': the public attribute set after construction",
     "oscillators with a programmable divider are included as single-stage models (NXOSCA: 450 MHz/(div+1) for HFCLKOUT and HFSDCOUT; GW1NOSC: 250 MHz, 210 MHz on GW1N-4, divided by FREQ_DIV in range(*osc_div_range); GW1NOSC has no configuration object separate from the emitted instance)",
-    "not covered: TRIONPLL/TITANIUMPLL (need an Efinity installation for the platform object), GateMatePLL (no computed configuration: frequencies are handed to the primitive as strings)",
+    "GateMatePLL computes no dividers (REF_CLK/OUT_CLK go to the primitive in MHz, the vendor tool derives the rest): modelled as base frequency = lowest request, ports CLK0/CLK90 = base, CLK180/CLK270 = base or 2*base (doubler), margin 0; legal requests use each phase/port once",
+    "not covered: TRIONPLL/TITANIUMPLL (need an Efinity installation for the platform object)",
     "tracer shim (names only)",
 ]
 MAXTASKS = 4
@@ -68,12 +75,13 @@ def families():
     from litex.soc.cores.clock.gowin_gw1n import GW1NPLL, GW1NOSC
     from litex.soc.cores.clock.gowin_gw2a import GW2APLL
     from litex.soc.cores.clock.gowin_gw5a import GW5APLL
+    from litex.soc.cores.clock.colognechip import GateMatePLL
     fams = [F.Xilinx(S6PLL), F.Xilinx(S6DCM), F.Xilinx(S7PLL, vco_margin=0.1), F.Xilinx(S7MMCM), F.Xilinx(USPLL),
             F.Xilinx(USMMCM), F.Xilinx(USPPLL), F.XilinxUSPMMCM(USPMMCM),
             F.Intel(CycloneIVPLL, vco_margin=0.1), F.Intel(CycloneVPLL), F.Intel(Cyclone10LPPLL), F.Intel(Max10PLL),
             F.Intel(StratixVPLL),
             F.ECP5(ECP5PLL), F.ICE40(iCE40PLL), F.NX(NXPLL), F.Gowin1(GW1NPLL), F.Gowin1(GW2APLL), F.Gowin5(GW5APLL),
-            F.NXOsc(NXOSCA), F.GowinOsc(GW1NOSC)]
+            F.NXOsc(NXOSCA), F.GowinOsc(GW1NOSC), F.GateMate(GateMatePLL)]
     return {f.name: f for f in fams}
 
 
@@ -124,7 +132,7 @@ def uniq(xs):
 # only put at inputs <= cut.  The cuts exist because a REFUSED request costs the helper a complete scan whose length
 # grows with the input frequency (S7PLL 0.2-0.4 s, ECP5 0.25 s, USPMMCM 0.7 s, Intel 0.4-5 s at the top of the range).
 BASE = dict(quick=dict(n_in=2, n1=7, n2=4, n3=3, nm=2, cut1=None, cut2=450e6, cut3=260e6, m2="few", m3="few", mm=(1e-2,)),
-            thorough=dict(n_in=8, n1=16, n2=8, n3=4, nm=2, cut1=None, cut2=None, cut3=450e6, m2="all", m3="all", mm=(1e-2, 1e-4)))
+            thorough=dict(n_in=8, n1=16, n2=6, n3=4, nm=2, cut1=None, cut2=None, cut3=450e6, m2="all", m3="all", mm=(1e-2, 1e-4)))
 SPEC = {
     "S6DCM":    dict(quick=dict(n_in=4, n1=12), thorough=dict(n_in=12, n1=19)),
     "iCE40PLL": dict(quick=dict(n_in=6, n1=12), thorough=dict(n_in=14, n1=19)),
@@ -139,7 +147,7 @@ SPEC = {
 # IntelClocking.compute_config never exits early (it ranks every valid (N, M)): 0.05-0.25 s per request up to 100 MHz,
 # 0.4 s (Cyclone) to 5 s (Stratix V, 800 MHz) at the top of the input range.
 INTEL = dict(quick=dict(n_in=2, n1=5, n2=3, n3=2, nm=0, cut1=130e6, m2="three", m3="two"),
-             thorough=dict(n_in=5, n1=12, n2=5, n3=3, nm=2, cut1=210e6, cut3=130e6, m2="few", m3="few", mm=(1e-2,)))
+             thorough=dict(n_in=3, n1=10, n2=4, n3=3, nm=2, cut1=130e6, cut3=130e6, m2="few", m3="few", mm=(1e-2,)))
 
 
 class Grid:
@@ -295,7 +303,33 @@ class OscGrid:
                     yield Req(self.src, [(f0, 0, m0), (f1, 0, m1)], ("hf", "sdc"))
 
 
+class GateMateGrid:
+    """GateMatePLL: every non-empty set of the four ports (phases) x output frequencies (Cartesian), three inputs"""
+    def __init__(self, fam, pll, tier):
+        self.tier = tier
+        self.inputs = [10e6, 25e6] + ([100e6] if tier == "thorough" else [])
+        top = pll._max_freq
+        self.out1 = uniq([25e6, 50e6, 100e6, 24.576e6, 125e6, top / 2, top, top * 1.001])
+        self.out2 = [50e6, 100e6, 200e6] if tier == "quick" else [50e6, 100e6, 200e6, 25e6, 33.333e6]
+        self.out3, self.outm = [50e6, 100e6], [50e6, 100e6]
+
+    def counts(self):
+        return [1, 2, 3, 4]
+
+    def requests(self):
+        phases = (0, 90, 180, 270)
+        for fin in self.inputs:
+            for n in self.counts():
+                grid = {1: self.out1, 2: self.out2}.get(n, self.out3)
+                for ports in itertools.permutations(phases, n) if n <= 2 else itertools.combinations(phases, n):
+                    for fs in itertools.product(grid, repeat=n):
+                        yield Req(fin, [(f, p, 0) for f, p in zip(fs, ports)])
+            yield Req(fin, [(50e6, 0, 0), (50e6, 0, 0)])          # same port twice: must be refused
+
+
 def grid_for(fam, pll, tier):
+    if isinstance(fam, F.GateMate):
+        return GateMateGrid(fam, pll, tier)
     if isinstance(fam, (F.NXOsc, F.GowinOsc)):
         return OscGrid(fam, pll, tier)
     if isinstance(fam, F.Gowin1):
